@@ -1,4 +1,322 @@
 package main
 
-// thoroughExtras is filled in by thorough.go's real implementation below.
-func thoroughExtras(c *Ctx, pc *propCheck) {}
+import (
+	"bytes"
+	"fmt"
+	"go/ast"
+	"go/format"
+	"go/parser"
+	"go/token"
+	"os"
+	"os/exec"
+	"path/filepath"
+	"sort"
+	"strings"
+
+	"golang.org/x/tools/go/ssa"
+)
+
+// The thorough tier. On top of the quick rules (which already cover every function of every package under the
+// default build configuration) it
+//
+//	T1  re-decides the property under a second build configuration (GOARCH=386: 32-bit int, every file a build
+//	    constraint would swap in) — findings there are findings;
+//	T2  re-analyses the tree after a behaviour-preserving rewrite (every file re-printed with its function
+//	    declarations in reverse order and a comment block on top, so every position changes) and compares the finding
+//	    keys: a rule that keys on text or position shows up here;
+//	T3  re-analyses the tree with each seeded change filed for this property under /verif/seeded applied to a scratch
+//	    copy, and records which of them the rules report (the sensitivity of the rules on this very tree).
+//
+// T2 and T3 analyse scratch copies made under the system temp directory and removed before the check returns; they
+// never execute anything from the tree. Their outcome is evidence about the checker, not about /repo: it is recorded
+// (coverage.thorough) and printed, and does not change the exit status.
+func thoroughExtras(c *Ctx, pc *propCheck) {
+	th := map[string]interface{}{}
+	c.Extra["thorough"] = th
+	base := findingKeys(c)
+
+	// ---- T1
+	{
+		p2, err := Load(repoDir(), "386")
+		if err != nil {
+			th["goarch_386"] = "load failed: " + err.Error()
+			r := c.Rule("T1", "the property is decided under GOARCH=386 as well", 1)
+			r.Undecided(token.NoPos, "-", "GOARCH=386 load", "the tree does not load under the second build configuration: "+err.Error())
+		} else {
+			c2 := &Ctx{Prop: c.Prop, Tier: c.Tier, P: p2, start: c.start, Explanation: pc.explain, Extra: map[string]interface{}{}}
+			resetMemos()
+			pc.run(c2)
+			k2 := findingKeys(c2)
+			r := c.Rule("T1", "the property is decided under GOARCH=386 as well", 1)
+			var extra []string
+			for k := range k2 {
+				if !base[k] {
+					extra = append(extra, k)
+				}
+			}
+			sort.Strings(extra)
+			for _, k := range extra {
+				for _, rr := range c2.Rules {
+					for _, f := range rr.Findings {
+						if f.Key == k {
+							r.Fail(token.NoPos, f.Func, "under GOARCH=386: "+f.Construct, f.Msg)
+						}
+					}
+				}
+			}
+			if len(extra) == 0 {
+				ob := 0
+				for _, rr := range c2.Rules {
+					ob += rr.Instances
+				}
+				r.OK(fmt.Sprintf("GOARCH=386: %d packages, %d functions, %d obligations", len(p2.All), len(p2.Funcs()), ob), "same findings as the default configuration")
+			}
+			th["goarch_386"] = map[string]interface{}{"packages": len(p2.All), "functions": len(p2.Funcs()), "new_findings": extra}
+			resetMemos()
+		}
+	}
+
+	self, err := os.Executable()
+	if err != nil {
+		th["error"] = err.Error()
+		return
+	}
+	runOn := func(dir string) (map[string]bool, error) {
+		ev, _ := os.MkdirTemp("", "gqlvet-ev-")
+		defer os.RemoveAll(ev)
+		cmd := exec.Command(self, "findings", c.Prop)
+		cmd.Env = append(os.Environ(), "GQLVET_REPO="+dir, "GQLVET_EVIDENCE="+ev)
+		var out bytes.Buffer
+		cmd.Stdout = &out
+		if err := cmd.Run(); err != nil && out.Len() == 0 {
+			return nil, err
+		}
+		keys := map[string]bool{}
+		for _, l := range strings.Split(out.String(), "\n") {
+			if strings.HasPrefix(l, "FINDING ") {
+				parts := strings.SplitN(l, " ", 4)
+				if len(parts) == 4 {
+					keys[parts[3]] = true
+				}
+			}
+		}
+		return keys, nil
+	}
+	scratch := func() (string, error) {
+		dir, err := os.MkdirTemp("", "gqlvet-scratch-")
+		if err != nil {
+			return "", err
+		}
+		cp := exec.Command("cp", "-r", repoDir()+"/.", dir)
+		if out, err := cp.CombinedOutput(); err != nil {
+			os.RemoveAll(dir)
+			return "", fmt.Errorf("copy: %v %s", err, out)
+		}
+		os.RemoveAll(filepath.Join(dir, ".git"))
+		return dir, nil
+	}
+	baseSub, err := runOn(repoDir())
+	if err != nil {
+		th["error"] = "findings subprocess: " + err.Error()
+		return
+	}
+
+	// ---- T2 neutral rewrite
+	if dir, err := scratch(); err == nil {
+		n, rerr := neutralRewrite(dir)
+		if rerr != nil {
+			th["neutral_rewrite"] = "rewrite failed: " + rerr.Error()
+		} else if keys, err := runOn(dir); err != nil {
+			th["neutral_rewrite"] = "analysis failed: " + err.Error()
+		} else {
+			var diff []string
+			for k := range keys {
+				if !baseSub[k] {
+					diff = append(diff, "+"+k)
+				}
+			}
+			for k := range baseSub {
+				if !keys[k] {
+					diff = append(diff, "-"+k)
+				}
+			}
+			sort.Strings(diff)
+			th["neutral_rewrite"] = map[string]interface{}{"files_rewritten": n, "finding_keys_changed": diff,
+				"what": "every non-test file re-printed with its function declarations in reverse order under a comment block: all positions change, behaviour does not"}
+			if len(diff) > 0 {
+				fmt.Fprintf(os.Stderr, "gqlvet %s thorough: NOTE neutral rewrite changed %d finding key(s): %v\n", c.Prop, len(diff), diff)
+			}
+		}
+		os.RemoveAll(dir)
+	}
+
+	// ---- T3 seeded changes of this property
+	seeds, _ := filepath.Glob(filepath.Join(verifDir(), "seeded", c.Prop+"-m*", "patch.diff"))
+	sort.Strings(seeds)
+	sens := map[string]string{}
+	det, app := 0, 0
+	for _, patch := range seeds {
+		name := filepath.Base(filepath.Dir(patch))
+		dir, err := scratch()
+		if err != nil {
+			sens[name] = "scratch copy failed"
+			continue
+		}
+		ap := exec.Command("git", "apply", "--whitespace=nowarn", patch)
+		ap.Dir = dir
+		if out, err := ap.CombinedOutput(); err != nil {
+			sens[name] = "does not apply to this tree (" + strings.TrimSpace(firstLine(string(out))) + ")"
+			os.RemoveAll(dir)
+			continue
+		}
+		app++
+		keys, err := runOn(dir)
+		os.RemoveAll(dir)
+		if err != nil {
+			sens[name] = "analysis failed: " + err.Error()
+			continue
+		}
+		var nw []string
+		for k := range keys {
+			if !baseSub[k] {
+				nw = append(nw, k)
+			}
+		}
+		sort.Strings(nw)
+		if len(nw) > 0 {
+			det++
+			sens[name] = "reported: " + nw[0]
+		} else {
+			sens[name] = "not reported (value-level change outside the structural clauses decided here)"
+		}
+	}
+	th["seeded_changes"] = map[string]interface{}{"filed": len(seeds), "applicable": app, "reported": det, "per_change": sens}
+	fmt.Fprintf(os.Stderr, "gqlvet %s thorough: GOARCH=386 re-decided; neutral rewrite compared; %d of %d applicable seeded changes reported\n", c.Prop, det, app)
+}
+
+func firstLine(s string) string {
+	if i := strings.IndexByte(s, '\n'); i >= 0 {
+		return s[:i]
+	}
+	return s
+}
+
+// findingKeys: the keys of the findings that are not listed as known.
+func findingKeys(c *Ctx) map[string]bool {
+	out := map[string]bool{}
+	known, _ := loadKnown()
+	for _, r := range c.Rules {
+		for _, f := range r.Findings {
+			isKnown := false
+			if known != nil {
+				for _, k := range known.Known {
+					if k.Property == c.Prop && k.Key == f.Key {
+						isKnown = true
+					}
+				}
+			}
+			if !isKnown {
+				out[f.Key] = true
+			}
+		}
+	}
+	return out
+}
+
+// neutralRewrite re-prints every non-test Go file of the module in dir: a comment block on top and the function
+// declarations (with their doc comments) in reverse order. Returns the number of files rewritten.
+func neutralRewrite(dir string) (int, error) {
+	n := 0
+	err := filepath.Walk(dir, func(path string, info os.FileInfo, err error) error {
+		if err != nil {
+			return err
+		}
+		if info.IsDir() {
+			if info.Name() == "testdata" || strings.HasPrefix(info.Name(), ".") && path != dir {
+				return filepath.SkipDir
+			}
+			return nil
+		}
+		if !strings.HasSuffix(path, ".go") || strings.HasSuffix(path, "_test.go") {
+			return nil
+		}
+		src, err := os.ReadFile(path)
+		if err != nil {
+			return err
+		}
+		fset := token.NewFileSet()
+		f, err := parser.ParseFile(fset, path, src, parser.ParseComments)
+		if err != nil {
+			return err
+		}
+		// split the source into the header (everything before the first func decl) and the func decl chunks, keeping
+		// each chunk's leading doc comment and the text up to the next declaration
+		type chunk struct{ from, to int }
+		var funcs []chunk
+		offs := func(p token.Pos) int { return fset.Position(p).Offset }
+		var starts []int
+		isFunc := map[int]bool{}
+		for _, d := range f.Decls {
+			st := offs(d.Pos())
+			switch x := d.(type) {
+			case *ast.FuncDecl:
+				if x.Doc != nil {
+					st = offs(x.Doc.Pos())
+				}
+				isFunc[st] = true
+			case *ast.GenDecl:
+				if x.Doc != nil {
+					st = offs(x.Doc.Pos())
+				}
+			}
+			starts = append(starts, st)
+		}
+		if len(starts) == 0 {
+			return nil
+		}
+		var out bytes.Buffer
+		out.WriteString("// (re-printed: declarations reordered, positions shifted)\n//\n//\n")
+		out.Write(src[:starts[0]])
+		var others bytes.Buffer
+		for i, st := range starts {
+			end := len(src)
+			if i+1 < len(starts) {
+				end = starts[i+1]
+			}
+			if isFunc[st] {
+				funcs = append(funcs, chunk{st, end})
+			} else {
+				others.Write(src[st:end])
+				if end == len(src) && (end == 0 || src[end-1] != '\n') {
+					others.WriteByte('\n')
+				}
+			}
+		}
+		out.Write(others.Bytes())
+		for i := len(funcs) - 1; i >= 0; i-- {
+			out.WriteString("\n")
+			out.Write(src[funcs[i].from:funcs[i].to])
+			if b := src[funcs[i].to-1]; b != '\n' {
+				out.WriteByte('\n')
+			}
+		}
+		res, err := format.Source(out.Bytes())
+		if err != nil {
+			return fmt.Errorf("%s: %v", path, err)
+		}
+		n++
+		return os.WriteFile(path, res, info.Mode())
+	})
+	return n, err
+}
+
+// resetMemos clears the per-program caches the rules keep in package-level variables, so that a second program can
+// be analysed in the same process.
+func resetMemos() {
+	loaderOnlyMemo = nil
+	liveMemo = map[*ssa.Function]*liveInfo{}
+	interestMemo = map[*ssa.Function]*interestSet{}
+	linkFreeMemo = map[*ssa.Function]int{}
+	staleSelfTestMemo = nil
+	c02GateRecords = nil
+}
